@@ -266,7 +266,6 @@ func locksetRule(c *Check, rule string, rel string, structName, lockName string,
 	return n
 }
 
-
 func callbackBuiltUnderLock(p *Prog, pk *packagesPkg, fi *FuncInfo, lockF *types.Var) string {
 	sig := fi.Obj.Type().(*types.Signature)
 	if sig.Recv() == nil || namedOf(sig.Recv().Type()) == nil {
